@@ -2,11 +2,12 @@
   Request dispatch of the driver: chains the topic dispatchers.
 -/
 import DemesVerif.Ops.Core
+import DemesVerif.Ops.IO
 namespace Demes.Ops
 open Lean
 
 def dispatchers : List (String → Json → Option Json) :=
-  [Core.dispatch?]
+  [Core.dispatch?, IO.dispatch?]
 
 def dispatch (j : Json) : Json :=
   match j.getObjValAs? String "op" with
